@@ -5,6 +5,29 @@ import json, os
 HERE = os.path.dirname(os.path.dirname(os.path.abspath(__file__)))
 
 CLAIMED = {
+    "C11": dict(
+        text="spec/NamedFiles.tla models the store (source bytes, per-name manifest, stored versions) with Add/Mutate/Remove/NewInstance; TLC "
+        "explores all operation sequences up to length 6 on the abstract store (history hidden by a VIEW) checking CurrentOnDisk, "
+        "ManifestMatchesDisk, NoRepeatEntries and the action properties VersionsImmutable, ManifestAppendOnly, SourceEditsInvisible; all "
+        "histories up to a length and random longer ones (tlc -simulate) are replayed step by step into a real FileManager, comparing "
+        "get_named_file (bytes, sha256 file name), get_fingerprint_for_name, the manifest and every stored file after each operation.",
+        note="Trusted: TLC, hashlib. Three contents (one non-UTF-8). remove only issued for a present name. Replay: quick all histories of "
+        "length 2 + random length 8; thorough all of length 3 + random length 12.",
+        technique="TLA+ store spec model-checked with TLC; TLC-generated histories replayed into the implementation with state comparison after every step",
+        ref="7 (C11)",
+    ),
+    "C12": dict(
+        text="spec/NamedPaths.tla models groups of abstract member tokens with Add/ReAdd/Replace/Remove/NewInstance, Select/From/To and a manifest "
+        "with one entry per change of content; TLC checks ManifestCurrent, NoRepeatEntries, SelectionsConsistent, OneEntryPerChange "
+        "exhaustively and emits histories; each is replayed into a real PathsManager with the tokens concretised per history by generated "
+        "csvpaths (identity in six spellings with lower-precedence decoys, free text, other fields, inner comments, newlines), comparing "
+        "get_named_paths(name), name#id, $name.csvpaths.id[:from|:to] and the manifest (fingerprint of the stored group file) after every step.",
+        note="Trusted: TLC; comment layout follows docs/comments.md (free text before the first field or after a stand-alone colon). "
+        "Known finding: a member containing the separator text does not round-trip.",
+        technique="TLA+ store spec model-checked with TLC; TLC-generated histories replayed into the implementation",
+        ref="7 (C12)",
+    ),
+
     "C05": dict(
         text="spec/ErrorPolicy.tla gives the handler (stop, collect, fail, print, raise in code order; validation-mode overrides win "
         "over the policy); spec/MC_ErrorPolicy.tla enumerates all 64 policies x overrides x 6 error kinds (argument mismatch on the "
